@@ -12,6 +12,10 @@ def run(tier, a=None):
         if not t.startswith('R'): specs.append({'src': 'h_c05.cpp', 'defs': ['TAG=' + t, 'ZERO_ROT'], 'filter': 'c05_exp.*'})
     tr = [{'src': 'h_trunc.cpp', 'defs': ['TAG=' + t], 'filter': 'tr_(exp|log).*', 'ap_prefixes': ['Jexp', 'Jlog']} for t in tg if not t.startswith('R')]
     cd = [{'src': 'h_cond.cpp', 'defs': ['TAG=' + t], 'filter': 'cond_exp.*', 'out_prefixes': ['Jexp']} for t in ('SE2t', 'SO3t', 'SE3t')]
+    import props.common as pc, props.common2 as pc2
+    _o = pc.opts
+    pc.opts = lambda tier, a=None: dict(_o(tier, a), nonfinite_check=True)
+    pc2.opts = pc.opts
     return combined('C05', tier, a, specs, tr,
         'EXACT (generic branches; exp also at exactly zero rotation): each analytic Jacobian returned by inverse/log/exp/compose/between/rplus/lplus/plus/rminus/lminus/minus/act and tangent plus/minus equals the derivative obtained by running the same real operation over dual numbers on an argument perturbed to first order independently of the library (dM(f)/dd_k = M(f) hat(J e_k) resp. df/dd_k = J e_k), per path. Two-argument derived operations: one argument symbolic, the other concretised to exact rational points (expression swell). TRUNC: Jacobians of exp/log on the Taylor region within 1e-6*max(1,B) of the generic closed forms.',
         ['generic branches: no magnitude bound', 'relative rotation of log/rminus/lminus results below pi', 'rplus/lplus/rminus/lminus: second argument restricted to the exact rational points K0 (quick) / K0,K1 (thorough) listed in symx/groups.h', 'COND-lite on the exp Jacobian (see C06)', 'groups: ' + ','.join(tg)], cond_specs=cd)
